@@ -173,6 +173,29 @@ func c05kfakeAbortedIndex(c *Ctx) {
 		return true
 	})
 	c.Floor(rule+"/appends", nApp, 1)
+	// an entry that starts past the returned range is skipped, not a reason to stop:
+	// the index is ordered by lastOffset, so a later entry can still start inside the range
+	nSkip := 0
+	ast.Inspect(f.Decl.Body, func(x ast.Node) bool {
+		ifs, ok := x.(*ast.IfStmt)
+		if !ok {
+			return true
+		}
+		be, isB := unparen(ifs.Cond).(*ast.BinaryExpr)
+		if !isB || be.Op != token.GEQ || !sameField(fieldOfSel(info, be.X), first) || nosp(exprStr(be.Y)) != "upperBound" {
+			return true
+		}
+		nSkip++
+		okCont := false
+		if n := len(ifs.Body.List); n == 1 {
+			if br, ok := ifs.Body.List[0].(*ast.BranchStmt); ok && br.Tok == token.CONTINUE && br.Label == nil {
+				okCont = true
+			}
+		}
+		c.Check(okCont, rule, f.Key+": entries past the range are skipped with continue", ifs.Pos(), m, "", "the scan of the aborted-transaction index stops (break/return) at the first entry that starts past the returned range: the index is ordered by abort marker, not by first offset, so an aborted transaction that started earlier but was aborted later is left out and its records are returned as committed")
+		return true
+	})
+	c.Floor(rule+"/skip-arms", nSkip, 1)
 	if o := localObj(f, "upperBound"); o != nil {
 		d := singleDef(f, o)
 		c.Check(d != nil && nosp(exprStr(d)) == "lastMeta.firstOffset+int64(lastMeta.lastOffsetDelta)+1", rule, f.Key+": upperBound", f.Pos(), m, "one past the last returned offset", "upperBound is not one past the last offset of the last returned batch")
